@@ -563,7 +563,9 @@ def repeated_section(ctx: Ctx):
             ctx.broken.append(f"reference: no reference for the repeated-target probe `{key}`: {res.get('ref_why')}")
         elif res.get("diff", 0.0) > TOL:
             w = res.get("worst")
-            ctx.violation("repeated " + key, f"a target named several times in one instruction is not read as Stim reads it: `{text}` differs from "
+            what = ("an ELSE_CORRELATED_ERROR separated from the chain it belongs to by other instructions" if key.startswith("ELSE")
+                    else "a target named several times in one instruction")
+            ctx.violation("repeated " + key, f"{what} is not read as Stim reads it: `{text}` differs from "
                           f"Stim's semantics by {res['diff']:.4g} (outcome {w[0]}: tsim {w[1]:.6g}, reference {w[2]:.6g})", replay)
 
 
